@@ -35,31 +35,17 @@ Import Calc2.
 (* The coarse life-cycle automaton                                                                  *)
 (* ------------------------------------------------------------------------------------------------ *)
 
-Inductive key := KLeaf (id : nat) | KSched (c : nat) | KAlloc (a : nat)    (* [stage 5] KAlloc a: the blocks of allocator a *)
-| KVal (sk : storekind) (v : Z).    (* [stage 6] the stored copies of value v of kind sk (TValCtor = start, TValDtor = dtor;
-                                       like a block a store counts as completed-alive while it exists; no capacity bound) *)
+Inductive key := KLeaf (id : nat) | KSched (c : nat) | KAlloc (a : nat).   (* [stage 5] KAlloc a: the blocks of allocator a *)
 Inductive act := AStart | ATouch | ADtor.
-
-Definition sk_eqb (a b : storekind) : bool :=
-  match a, b with
-  | SLetV, SLetV | SLetE, SLetE | SFinV, SFinV | SFinE, SFinE | SAll, SAll | SSw, SSw
-  | SAnyV, SAnyV | SCell, SCell | SAnyJ, SAnyJ => true
-  | _, _ => false
-  end.
 
 Definition lkb (k : key) (id : nat) : bool := match k with KLeaf i => Nat.eqb i id | _ => false end.
 Definition skb (k : key) (c : nat) : bool := match k with KSched i => Nat.eqb i c | _ => false end.
 Definition akb (k : key) (a : nat) : bool := match k with KAlloc i => Nat.eqb i a | _ => false end.
-Definition vkb (k : key) (sk : storekind) (v : Z) : bool :=
-  match k with KVal s w => sk_eqb s sk && Z.eqb w v | _ => false end.
-(* keys without a capacity bound: blocks and stored values *)
-Definition is_alloc (k : key) : bool := match k with KAlloc _ | KVal _ _ => true | _ => false end.
+Definition is_alloc (k : key) : bool := match k with KAlloc _ => true | _ => false end.
 Definition lk (k : key) (id : nat) : nat := if lkb k id then 1 else 0.
 Definition sk (k : key) (c : nat) : nat := if skb k c then 1 else 0.
 Definition ak (k : key) (a : nat) : nat := if akb k a then 1 else 0.
 Definition alk (k : key) : nat := if is_alloc k then 1 else 0.
-Definition vk (k : key) (sk : storekind) (v : Z) : nat := if vkb k sk v then 1 else 0.
-Definition vko (k : key) (h : option (storekind * Z)) : nat := match h with Some (sk, v) => vk k sk v | None => 0 end.
 
 (* what an event means for key k *)
 Definition ev_act (k : key) (t : tev) : option act :=
@@ -72,8 +58,6 @@ Definition ev_act (k : key) (t : tev) : option act :=
   | TSchedDtor c => if skb k c then Some ADtor else None
   | TAlloc a => if akb k a then Some AStart else None     (* a block is taken *)
   | TFree a => if akb k a then Some ADtor else None       (* ... and returned *)
-  | TValCtor sk v => if vkb k sk v then Some AStart else None   (* [stage 6] a store is constructed *)
-  | TValDtor sk v => if vkb k sk v then Some ADtor else None    (* ... and destroyed *)
   | _ => None
   end.
 
@@ -124,8 +108,6 @@ Definition ev_xact (k : key) (rho : nat -> bool) (t : tev) : option xact :=
   | TSchedDtor c => if skb k c then Some XDtor else None
   | TAlloc a => if akb k a then Some XStart else None
   | TFree a => if akb k a then Some XDtor else None
-  | TValCtor sk v => if vkb k sk v then Some XStart else None
-  | TValDtor sk v => if vkb k sk v then Some XDtor else None
   | _ => None
   end.
 
@@ -162,7 +144,7 @@ Lemma xact_act : forall k rho t,
 Proof.
   intros k rho t. destruct t; simpl; try reflexivity;
     try (destruct (lkb k id); try reflexivity; destruct (rho id); reflexivity);
-    try (destruct (skb k c); reflexivity); try (destruct (akb k a); reflexivity); destruct (vkb k k0 v); reflexivity.
+    try (destruct (skb k c); reflexivity); destruct (akb k a); reflexivity.
 Qed.
 
 (* forgetting the justification *)
@@ -196,13 +178,13 @@ Qed.
 
 (* other operation states of the same key do not disturb a life cycle *)
 Lemma lifeX_frame : forall k m rho ext r d p tr r' d' p', lifeX k m rho ext r d p tr r' d' p' ->
-  forall x y z, x + y <= z \/ is_alloc k = true -> lifeX k (m + z) rho ext (r + x) (d + y) p tr (r' + x) (d' + y) p'.
+  forall x y z, x + y <= z -> lifeX k (m + z) rho ext (r + x) (d + y) p tr (r' + x) (d' + y) p'.
 Proof.
   intros k m rho ext r d p tr r' d' p' H. induction H; intros x y z Hz; simpl.
   - apply X_nil.
   - apply X_ext; [assumption|]. exact (IHlifeX x y z Hz).
   - apply X_cb. exact (IHlifeX x y z Hz).
-  - apply X_start; [assumption|destruct H0; [destruct Hz; [left; lia|right; assumption]|right; assumption]|]. exact (IHlifeX x y z Hz).
+  - apply X_start; [assumption|destruct H0; [left; lia|right; assumption]|]. exact (IHlifeX x y z Hz).
   - apply X_touch; [assumption|]. exact (IHlifeX x y z Hz).
   - apply X_touchC; [assumption|]. exact (IHlifeX x y z Hz).
   - apply X_dtor; [assumption|]. exact (IHlifeX x y z Hz).
@@ -225,14 +207,14 @@ Proof.
 Qed.
 
 Lemma Q_frame : forall k m rho ext r d tr r' d', lifeQ k m rho ext r d tr r' d' ->
-  forall x y z, x + y <= z \/ is_alloc k = true -> lifeQ k (m + z) rho ext (r + x) (d + y) tr (r' + x) (d' + y).
+  forall x y z, x + y <= z -> lifeQ k (m + z) rho ext (r + x) (d + y) tr (r' + x) (d' + y).
 Proof.
   intros k m rho ext r d tr r' d' H x y z Hz p. destruct (H p) as (p' & A). exists p'.
   apply lifeX_frame; assumption.
 Qed.
 
 Lemma Q_frame_l : forall k m rho ext r d tr r' d', lifeQ k m rho ext r d tr r' d' ->
-  forall x y z, x + y <= z \/ is_alloc k = true -> lifeQ k (z + m) rho ext (x + r) (y + d) tr (x + r') (y + d').
+  forall x y z, x + y <= z -> lifeQ k (z + m) rho ext (x + r) (y + d) tr (x + r') (y + d').
 Proof.
   intros. rewrite (Nat.add_comm z m), (Nat.add_comm x r), (Nat.add_comm y d), (Nat.add_comm x r'), (Nat.add_comm y d').
   apply Q_frame; assumption.
@@ -252,25 +234,13 @@ Proof. intros k m rho ext r d tr r' d' H. destruct (H 0) as (p' & A). eapply lif
 (* Reading the automaton state off an operation state                                               *)
 (* ------------------------------------------------------------------------------------------------ *)
 
-(* [stage 6] the store a RUNNING binary node keeps in its node state: let_value / let_error / finally while their
-   second child runs ([held]), when_any's optResult (cell).  (The stores made from the values of the children of
-   when_all / stop_when / when_any, and the stores of completed operations, are OStore wrappers in the state.) *)
-Definition cellst (kk : bkind) (c : option Z) : option (storekind * Z) :=
-  match c with
-  | Some v => match kk with BWhenAny => Some (SCell, v) | _ => None end
-  | None => None
-  end.
-Definition node_store (kk : bkind) (ns : nst) : option (storekind * Z) :=
-  if is_seq kk then match ph ns with PSecond => held kk (saved ns) (cell ns) | _ => None end
-  else cellst kk (cell ns).
-
 Section Key.
 Variable k : key.
 Variable rho : nat -> bool.
 Variable ext : bool.
 
 (* running operation states of key k inside st *)
-Fixpoint nr (e : sexpr) (st : ost) {struct st} : nat :=
+Fixpoint nr (e : sexpr) (st : ost) {struct e} : nat :=
   match st with
   | OFin => 0
   | OLeaf c _ =>
@@ -286,11 +256,10 @@ Fixpoint nr (e : sexpr) (st : ost) {struct st} : nat :=
       | Bin _ a b => nr a sa + nr b sb
       | _ => 0
       end
-  | OStore _ _ s => nr e s
   end.
 
-(* completed operation states of key k that are still alive (not destroyed) inside st; [stage 6] and stores *)
-Fixpoint nd (e : sexpr) (st : ost) {struct st} : nat :=
+(* completed operation states of key k that are still alive (not destroyed) inside st *)
+Fixpoint nd (e : sexpr) (st : ost) {struct e} : nat :=
   match st with
   | OFin => 0
   | OLeaf c _ =>
@@ -304,7 +273,7 @@ Fixpoint nd (e : sexpr) (st : ost) {struct st} : nat :=
       match e with
       | Un UAllocate s => ak k (e_alloc (n_env ns)) + nd s sa    (* [stage 5] the block of a started allocate *)
       | Un _ s => nd s sa
-      | Bin kk a b => vko k (node_store kk ns) + (nd a sa + nd b sb)   (* [stage 6] the store of a running node *)
+      | Bin _ a b => nd a sa + nd b sb
       | _ => 0
       end
   | OCompl sa sb =>
@@ -313,25 +282,15 @@ Fixpoint nd (e : sexpr) (st : ost) {struct st} : nat :=
       | Bin _ a b => nd a sa + nd b sb
       | _ => 0
       end
-  | OStore sk v s => vk k sk v + nd e s                          (* [stage 6] a store around a completed operation *)
   end.
 
-(* the block held by a unary node itself; [stage 6] and the stores around it *)
-Fixpoint blk (kk : ukind) (st : ost) : nat :=
+(* the block held by a unary node itself *)
+Definition blk (kk : ukind) (st : ost) : nat :=
   match st with
   | ONode ns _ _ => match kk with UAllocate => ak k (e_alloc (n_env ns)) | _ => 0 end
-  | OStore sk v s => vk k sk v + blk kk s
   | _ => 0
   end.
 Definition ublk (kk : ukind) : nat := match kk with UAllocate => alk k | _ => 0 end.
-
-(* [stage 6] the stores a binary node owns itself: in its node state while it runs, around it once completed *)
-Fixpoint own (kk : bkind) (st : ost) : nat :=
-  match st with
-  | ONode ns _ _ => vko k (node_store kk ns)
-  | OStore sk v s => vk k sk v + own kk s
-  | _ => 0
-  end.
 
 (* the number of leaves with key k in the expression *)
 Fixpoint cap (e : sexpr) : nat :=
@@ -346,119 +305,34 @@ Fixpoint cap (e : sexpr) : nat :=
 Lemma ak_le : forall a, ak k a <= alk k.
 Proof. intros. unfold ak, alk, akb, is_alloc. destruct k; try lia. destruct (Nat.eqb a0 a); lia. Qed.
 
-Lemma vk_alloc : forall sk v, vk k sk v = 0 \/ is_alloc k = true.
-Proof. intros. unfold vk, vkb. destruct k; auto. Qed.
-
-Lemma vko_alloc : forall h, vko k h = 0 \/ is_alloc k = true.
-Proof. intros [[sk v]|]; simpl; [apply vk_alloc|auto]. Qed.
-
-Lemma le_alloc : forall x z, x = 0 \/ is_alloc k = true -> x <= z \/ is_alloc k = true.
-Proof. intros x z [->|H]; [left; lia|right; exact H]. Qed.
-
-Lemma blk_le : forall kk st, blk kk st <= ublk kk \/ is_alloc k = true.
-Proof.
-  intros kk st. induction st as [| | ns sa _ sb _| | |sk v s IH]; simpl; try (left; lia).
-  - destruct kk; simpl; try (left; lia). left. apply ak_le.
-  - destruct (vk_alloc sk v) as [E|E]; [rewrite E; exact IH|right; exact E].
-Qed.
-
-Lemma own_alloc : forall kk st, own kk st = 0 \/ is_alloc k = true.
-Proof.
-  intros kk st. induction st as [| | ns sa _ sb _| | |sk v s IH]; simpl; auto.
-  - apply vko_alloc.
-  - destruct (vk_alloc sk v) as [E|E]; [rewrite E; exact IH|right; exact E].
-Qed.
+Lemma blk_le : forall kk st, blk kk st <= ublk kk.
+Proof. intros kk st. destruct st; simpl; try lia. destruct kk; simpl; try lia. apply ak_le. Qed.
 
 Lemma nr_fin : forall e, nr e OFin = 0.
-Proof. reflexivity. Qed.
+Proof. destruct e; reflexivity. Qed.
 Lemma nd_fin : forall e, nd e OFin = 0.
-Proof. reflexivity. Qed.
+Proof. destruct e; reflexivity. Qed.
 
-Lemma cnt_le_cap : forall e st, nr e st + nd e st <= cap e \/ is_alloc k = true.
+Lemma cnt_le_cap : forall e st, nr e st + nd e st <= cap e.
 Proof.
-  intros e st. revert e. induction st as [|cc sn|ns sa IHa sb IHb|sa IHa sb IHb|v'|sk v s IH]; intros e.
-  - left. simpl. lia.
-  - left. destruct e; simpl; try lia; destruct cc; lia.
-  - destruct e as [v|x| |n|id|id|id c|id lvl| |id|kk s|kk a b]; simpl; try (left; lia).
-    + destruct (IHa s) as [H|H]; [|right; exact H]. left.
-      destruct kk; simpl; try lia. pose proof (ak_le (e_alloc (n_env ns))). lia.
-    + destruct (vko_alloc (node_store kk ns)) as [E|E]; [rewrite E|right; exact E].
-      destruct (IHa a) as [Ha|Ha]; [|right; exact Ha]. destruct (IHb b) as [Hb|Hb]; [|right; exact Hb]. left. lia.
-  - destruct e as [v|x| |n|id|id|id c|id lvl| |id|kk s|kk a b]; simpl; try (left; lia).
-    + destruct (IHa s) as [H|H]; [|right; exact H]. left. lia.
-    + destruct (IHa a) as [Ha|Ha]; [|right; exact Ha]. destruct (IHb b) as [Hb|Hb]; [|right; exact Hb]. left. lia.
-  - left. destruct e; simpl; lia.
-  - simpl. destruct (vk_alloc sk v) as [E|E]; [rewrite E; exact (IH e)|right; exact E].
-Qed.
-
-(* wrappers *)
-Fixpoint wcount (st : ost) : nat := match st with OStore sk v s => vk k sk v + wcount s | _ => 0 end.
-
-Lemma nr_unwrap : forall e st, nr e st = nr e (unwrap st).
-Proof. intros e st. induction st; simpl; auto. Qed.
-Lemma nd_unwrap : forall e st, nd e st = wcount st + nd e (unwrap st).
-Proof. intros e st. induction st; simpl; auto. lia. Qed.
-Lemma unwrap_idem : forall st, unwrap (unwrap st) = unwrap st.
-Proof. induction st; simpl; auto. Qed.
-Lemma unwrap_not_store : forall st sk v s, unwrap st <> OStore sk v s.
-Proof. induction st; simpl; intros; try discriminate. apply IHst. Qed.
-Lemma done_unwrap : forall e st, done_st e st <-> done_st e (unwrap st).
-Proof. intros e st. destruct e; simpl; rewrite ?unwrap_idem; tauto. Qed.
-Lemma wdtor_unwrap : forall st, wdtor (unwrap st) = [].
-Proof. induction st; simpl; auto. Qed.
-Lemma dtor_unwrap : forall e st, dtor e st = dtor e (unwrap st) ++ wdtor st.
-Proof.
-  intros e st. destruct e; simpl; rewrite ?unwrap_idem, ?wdtor_unwrap, ?app_nil_r; reflexivity.
+  induction e as [v|x| |n|id|id|id c|id lvl| |id|kk s IHs|kk a IHa b IHb]; intros st;
+    destruct st as [|cc sn|ns sa sb|sa sb|v']; simpl; try lia; try (destruct cc; lia).
+  - specialize (IHs sa). destruct kk; simpl; try lia. pose proof (ak_le (e_alloc (n_env ns))). lia.
+  - specialize (IHs sa). lia.
+  - specialize (IHa sa). specialize (IHb sb). lia.
+  - specialize (IHa sa). specialize (IHb sb). lia.
 Qed.
 
 Lemma done_nr : forall e st, done_st e st -> nr e st = 0.
 Proof.
-  intros e st. revert e. induction st as [|cc sn|ns sa IHa sb IHb|sa IHa sb IHb|v'|sk v s IH]; intros e H.
-  - reflexivity.
-  - destruct e; simpl in *; try contradiction; destruct cc; try contradiction; reflexivity.
-  - destruct e as [v|x| |n|id|id|id c|id lvl| |id|kk s|kk a b]; simpl in *; try contradiction.
-    destruct kk; try contradiction. destruct sb; try contradiction. auto.
-  - destruct e as [v|x| |n|id|id|id c|id lvl| |id|kk s|kk a b]; simpl in *; try contradiction.
-    + destruct sb; try (destruct kk; contradiction). destruct kk; auto.
-    + destruct H as (Ha & Hb). rewrite (IHa _ Ha), (IHb _ Hb). reflexivity.
-  - destruct e as [v|x| |n|id|id|id c|id lvl| |id|kk s|kk a b]; simpl in *; try contradiction; destruct kk; contradiction.
-  - simpl. apply IH. apply (proj1 (done_store e sk v s)). exact H.
+  induction e as [v|x| |n|id|id|id c|id lvl| |id|kk s IHs|kk a IHa b IHb]; intros st H;
+    destruct st as [|[|] sn|ns sa sb|sa sb|v']; simpl in *; try contradiction; try reflexivity.
+  - destruct kk; try contradiction. destruct sb; try contradiction. auto.
+  - destruct sb; try (destruct kk; contradiction). destruct kk; auto.
+  - destruct H as (Ha & Hb). rewrite (IHa _ Ha), (IHb _ Hb). reflexivity.
 Qed.
 
-Lemma vdtor_life : forall sk v m r d, lifeQ k m rho ext r (vk k sk v + d) [TValDtor sk v] r d.
-Proof.
-  intros sk v m r d p. exists p. unfold vk. destruct (vkb k sk v) eqn:E; simpl.
-  - apply X_dtor; [simpl; rewrite E; reflexivity|apply X_nil].
-  - apply X_skip; [simpl; rewrite E; reflexivity|apply X_nil].
-Qed.
-
-Lemma wdtor_life : forall st m r d, lifeQ k m rho ext r (wcount st + d) (wdtor st) r d.
-Proof.
-  induction st as [| | | | |sk v s IH]; intros m r d; simpl; try apply Q_nil.
-  apply Q_app with (r1 := r) (d1 := vk k sk v + d).
-  - replace (vk k sk v + wcount s + d) with (wcount s + (vk k sk v + d)) by lia. apply IH.
-  - apply vdtor_life.
-Qed.
-
-(* the store the parent (when_all / stop_when) put around a child's slot *)
-Definition sto (kk : bkind) (st : ost) : nat :=
-  match st with OStore sk v _ => if own_store kk sk then vk k sk v else 0 | _ => 0 end.
-
-Lemma nd_strip : forall kk e st, nd e st = sto kk st + nd e (strip kk st).
-Proof. intros kk e st. destruct st; simpl; auto. destruct (own_store kk k0); simpl; auto. Qed.
-
-Lemma done_strip : forall kk e st, done_st e st -> done_st e (strip kk st).
-Proof.
-  intros kk e st H. destruct st; simpl; auto. destruct (own_store kk k0); auto.
-  apply (proj1 (done_store e k0 v st)). exact H.
-Qed.
-
-Lemma stored_life : forall kk st m r d, lifeQ k m rho ext r (sto kk st + d) (stored kk st) r d.
-Proof.
-  intros kk st m r d. destruct st; simpl; try apply Q_nil. destruct (own_store kk k0); [apply vdtor_life|apply Q_nil].
-Qed.
-
-(* the destructor cascade of a completed operation destroys exactly its alive operation states and stores *)
+(* the destructor cascade of a completed operation destroys exactly its alive operation states *)
 Lemma dtor_life : forall e st, done_st e st ->
   forall m r d, lifeQ k m rho ext r (nd e st + d) (dtor e st) r d.
 Proof.
@@ -466,16 +340,8 @@ Proof.
   { intros id m r d p. exists p. unfold lk. destruct (lkb k id) eqn:E; simpl.
     - apply X_dtor; [simpl; rewrite E; reflexivity|apply X_nil].
     - apply X_skip; [simpl; rewrite E; reflexivity|apply X_nil]. }
-  assert (W : forall e, (forall st, unwrap st = st -> done_st e st -> forall m r d, lifeQ k m rho ext r (nd e st + d) (dtor e st) r d) ->
-              forall st, done_st e st -> forall m r d, lifeQ k m rho ext r (nd e st + d) (dtor e st) r d).
-  { intros e C st H m r d. rewrite dtor_unwrap, nd_unwrap.
-    apply Q_app with (r1 := r) (d1 := wcount st + d).
-    - replace (wcount st + nd e (unwrap st) + d) with (nd e (unwrap st) + (wcount st + d)) by lia.
-      apply C; [apply unwrap_idem|]. apply (proj1 (done_unwrap e st)). exact H.
-    - apply wdtor_life. }
-  induction e as [v|x| |n|id|id|id c|id lvl| |id|kk s IHs|kk a IHa b IHb]; apply W; intros st U H m r d;
-    destruct st as [|[|] sn|ns sa sb|sa sb|v'|sk0 v0 s0]; simpl in U; try (exfalso; exact (unwrap_not_store _ _ _ _ U));
-    simpl in H |- *; try contradiction; rewrite ?app_nil_r; try apply Q_nil; try apply LF;
+  induction e as [v|x| |n|id|id|id c|id lvl| |id|kk s IHs|kk a IHa b IHb]; intros st H m r d;
+    destruct st as [|[|] sn|ns sa sb|sa sb|v']; simpl in *; try contradiction; try apply Q_nil; try apply LF;
     try (destruct kk; contradiction); try (destruct kk; apply Q_nil).
   - intros p. exists p. unfold sk. destruct (skb k c) eqn:E; simpl.
     + apply X_dtor; [simpl; rewrite E; reflexivity|apply X_nil].
@@ -489,23 +355,13 @@ Proof.
       * apply X_skip; [simpl; rewrite E; reflexivity|apply X_nil].
   - destruct sb; try (destruct kk; contradiction). assert (done_st s sa) as H' by (destruct kk; exact H).
     destruct kk; apply IHs; exact H'.
-  - destruct H as (Ha & Hb).
-    rewrite (nd_strip kk a sa), (nd_strip kk b sb).
-    apply Q_app with (r1 := r) (d1 := sto kk sa + sto kk sb + d).
-    + destruct (dtor_b_first kk).
-      * apply Q_app with (r1 := r) (d1 := nd a (strip kk sa) + (sto kk sa + sto kk sb + d)).
-        -- replace (sto kk sa + nd a (strip kk sa) + (sto kk sb + nd b (strip kk sb)) + d)
-             with (nd b (strip kk sb) + (nd a (strip kk sa) + (sto kk sa + sto kk sb + d))) by lia.
-           apply IHb. apply done_strip. exact Hb.
-        -- apply IHa. apply done_strip. exact Ha.
-      * apply Q_app with (r1 := r) (d1 := nd b (strip kk sb) + (sto kk sa + sto kk sb + d)).
-        -- replace (sto kk sa + nd a (strip kk sa) + (sto kk sb + nd b (strip kk sb)) + d)
-             with (nd a (strip kk sa) + (nd b (strip kk sb) + (sto kk sa + sto kk sb + d))) by lia.
-           apply IHa. apply done_strip. exact Ha.
-        -- apply IHb. apply done_strip. exact Hb.
-    + apply Q_app with (r1 := r) (d1 := sto kk sb + d).
-      * rewrite <- Nat.add_assoc. apply stored_life.
-      * apply stored_life.
+  - destruct H as (Ha & Hb). destruct (dtor_b_first kk).
+    + apply Q_app with (r1 := r) (d1 := nd a sa + d).
+      * replace (nd a sa + nd b sb + d) with (nd b sb + (nd a sa + d)) by lia. apply IHb. exact Hb.
+      * apply IHa. exact Ha.
+    + apply Q_app with (r1 := r) (d1 := nd b sb + d).
+      * rewrite <- Nat.add_assoc. apply IHa. exact Ha.
+      * apply IHb. exact Hb.
 Qed.
 
 (* ---- life cycles between operation states ---- *)
@@ -513,13 +369,12 @@ Qed.
 Definition lifeS (e : sexpr) (st : ost) (tr : list tev) (st' : ost) : Prop :=
   lifeQ k (cap e) rho ext (nr e st) (nd e st) tr (nr e st') (nd e st').
 
-(* [stage 6] o / o' = the stores the node itself owns before / after *)
-Definition lifeP (a b : sexpr) (o : nat) (sa sb : ost) (tr : list tev) (o' : nat) (sa' sb' : ost) : Prop :=
-  lifeQ k (cap a + cap b) rho ext (nr a sa + nr b sb) (o + (nd a sa + nd b sb)) tr
-        (nr a sa' + nr b sb') (o' + (nd a sa' + nd b sb')).
+Definition lifeP (a b : sexpr) (sa sb : ost) (tr : list tev) (sa' sb' : ost) : Prop :=
+  lifeQ k (cap a + cap b) rho ext (nr a sa + nr b sb) (nd a sa + nd b sb) tr
+        (nr a sa' + nr b sb') (nd a sa' + nd b sb').
 
-Fixpoint kid (st : ost) : ost := match st with ONode _ a _ => a | OCompl a _ => a | OStore _ _ s => kid s | _ => OFin end.
-Fixpoint kid2 (st : ost) : ost := match st with ONode _ _ b => b | OCompl _ b => b | OStore _ _ s => kid2 s | _ => OFin end.
+Definition kid (st : ost) : ost := match st with ONode _ a _ => a | OCompl a _ => a | _ => OFin end.
+Definition kid2 (st : ost) : ost := match st with ONode _ _ b => b | OCompl _ b => b | _ => OFin end.
 
 Lemma lifeS_refl : forall e st, lifeS e st [] st.
 Proof. intros. apply Q_nil. Qed.
@@ -537,13 +392,13 @@ Lemma lifeS_skips : forall e st tr, Forall (fun t => ev_xact k rho t = None) tr 
 Proof. intros. apply Q_skips. assumption. Qed.
 
 Lemma nr_un : forall kk s st, nr (Un kk s) st = nr s (kid st).
-Proof. intros. induction st; simpl; auto. Qed.
+Proof. intros. destruct st; simpl; try reflexivity; destruct s; reflexivity. Qed.
 Lemma nd_un : forall kk s st, nd (Un kk s) st = blk kk st + nd s (kid st).
-Proof. intros. induction st; simpl; auto; try (destruct kk; reflexivity). lia. Qed.
+Proof. intros. destruct st; simpl; try reflexivity; try (destruct s; reflexivity); destruct kk; reflexivity. Qed.
 Lemma nr_bin : forall kk a b st, nr (Bin kk a b) st = nr a (kid st) + nr b (kid2 st).
-Proof. intros. induction st; simpl; auto. Qed.
-Lemma nd_bin : forall kk a b st, nd (Bin kk a b) st = own kk st + (nd a (kid st) + nd b (kid2 st)).
-Proof. intros. induction st; simpl; auto. lia. Qed.
+Proof. intros. destruct st; simpl; try reflexivity; destruct a, b; reflexivity. Qed.
+Lemma nd_bin : forall kk a b st, nd (Bin kk a b) st = nd a (kid st) + nd b (kid2 st).
+Proof. intros. destruct st; simpl; try reflexivity; destruct a, b; reflexivity. Qed.
 
 Lemma lifeS_un : forall kk s st tr st', lifeS s (kid st) tr (kid st') -> blk kk st = blk kk st' ->
   lifeS (Un kk s) st tr st'.
@@ -557,66 +412,43 @@ Lemma blk_eq : forall kk ns a b ns' a' b', e_alloc (n_env ns) = e_alloc (n_env n
   blk kk (ONode ns a b) = blk kk (ONode ns' a' b').
 Proof. intros kk ns a b ns' a' b' E. simpl. rewrite E. reflexivity. Qed.
 
-Lemma blk_other : forall kk st, unwrap st = st -> kk <> UAllocate -> blk kk st = 0.
-Proof.
-  intros kk st U H. destruct st; simpl; try reflexivity.
-  - destruct kk; try reflexivity. congruence.
-  - exfalso. simpl in U. exact (unwrap_not_store _ _ _ _ U).
-Qed.
+Lemma blk_other : forall kk st, kk <> UAllocate -> blk kk st = 0.
+Proof. intros kk st H. destruct st; simpl; try reflexivity. destruct kk; try reflexivity. congruence. Qed.
 
 Lemma lifeS_bin : forall kk a b st tr st',
-  lifeP a b (own kk st) (kid st) (kid2 st) tr (own kk st') (kid st') (kid2 st') -> lifeS (Bin kk a b) st tr st'.
+  lifeP a b (kid st) (kid2 st) tr (kid st') (kid2 st') -> lifeS (Bin kk a b) st tr st'.
 Proof. intros kk a b st tr st' H. unfold lifeS, lifeP in *. rewrite !nr_bin, !nd_bin. exact H. Qed.
 
-Lemma lifeP_nil : forall a b o sa sb, lifeP a b o sa sb [] o sa sb.
+Lemma lifeP_nil : forall a b sa sb, lifeP a b sa sb [] sa sb.
 Proof. intros. apply Q_nil. Qed.
 
-Lemma lifeP_app : forall a b o sa sb t1 o1 sa1 sb1 t2 o2 sa2 sb2,
-  lifeP a b o sa sb t1 o1 sa1 sb1 -> lifeP a b o1 sa1 sb1 t2 o2 sa2 sb2 -> lifeP a b o sa sb (t1 ++ t2) o2 sa2 sb2.
+Lemma lifeP_app : forall a b sa sb t1 sa1 sb1 t2 sa2 sb2,
+  lifeP a b sa sb t1 sa1 sb1 -> lifeP a b sa1 sb1 t2 sa2 sb2 -> lifeP a b sa sb (t1 ++ t2) sa2 sb2.
 Proof. intros. eapply Q_app; eassumption. Qed.
 
-Lemma Q_cast4 : forall m r d tr r' d' r0 d0 r0' d0', lifeQ k m rho ext r d tr r' d' ->
-  r = r0 -> d = d0 -> r' = r0' -> d' = d0' -> lifeQ k m rho ext r0 d0 tr r0' d0'.
-Proof. intros. subst. assumption. Qed.
-
-Lemma frame_ok : forall o e st, o = 0 \/ is_alloc k = true -> nr e st + (o + nd e st) <= cap e \/ is_alloc k = true.
+Lemma lifeP_a : forall a b sa sb tr sa', lifeS a sa tr sa' -> lifeP a b sa sb tr sa' sb.
 Proof.
-  intros o e st [->|O]; [|right; exact O]. simpl. apply cnt_le_cap.
+  intros a b sa sb tr sa' H. unfold lifeP. apply Q_frame; [exact H|apply cnt_le_cap].
 Qed.
 
-Lemma lifeP_a : forall a b o sa sb tr sa', lifeS a sa tr sa' -> o = 0 \/ is_alloc k = true -> lifeP a b o sa sb tr o sa' sb.
+Lemma lifeP_b : forall a b sa sb tr sb', lifeS b sb tr sb' -> lifeP a b sa sb tr sa sb'.
 Proof.
-  intros a b o sa sb tr sa' H O. unfold lifeP.
-  pose proof (Q_frame _ _ _ _ _ _ _ _ _ H (nr b sb) (o + nd b sb) (cap b) (frame_ok o b sb O)) as F.
-  eapply Q_cast4; [exact F| | | |]; lia.
+  intros a b sa sb tr sb' H. unfold lifeP. apply Q_frame_l; [exact H|apply cnt_le_cap].
 Qed.
 
-Lemma lifeP_b : forall a b o sa sb tr sb', lifeS b sb tr sb' -> o = 0 \/ is_alloc k = true -> lifeP a b o sa sb tr o sa sb'.
-Proof.
-  intros a b o sa sb tr sb' H O. unfold lifeP.
-  pose proof (Q_frame_l _ _ _ _ _ _ _ _ _ H (nr a sa) (o + nd a sa) (cap a) (frame_ok o a sa O)) as F.
-  eapply Q_cast4; [exact F| | | |]; lia.
-Qed.
+Lemma lifeP_dtor_a : forall a b sa sb, done_st a sa -> lifeP a b sa sb (dtor a sa) OFin sb.
+Proof. intros. apply lifeP_a. apply lifeS_dtor. assumption. Qed.
 
-Lemma lifeP_dtor_a : forall a b o sa sb, done_st a sa -> o = 0 \/ is_alloc k = true -> lifeP a b o sa sb (dtor a sa) o OFin sb.
-Proof. intros. apply lifeP_a; [apply lifeS_dtor; assumption|assumption]. Qed.
+Lemma lifeP_dtor_b : forall a b sa sb, done_st b sb -> lifeP a b sa sb (dtor b sb) sa OFin.
+Proof. intros. apply lifeP_b. apply lifeS_dtor. assumption. Qed.
 
-Lemma lifeP_dtor_b : forall a b o sa sb, done_st b sb -> o = 0 \/ is_alloc k = true -> lifeP a b o sa sb (dtor b sb) o sa OFin.
-Proof. intros. apply lifeP_b; [apply lifeS_dtor; assumption|assumption]. Qed.
-
-Lemma lifeP_skips : forall a b o sa sb tr, Forall (fun t => ev_xact k rho t = None) tr -> lifeP a b o sa sb tr o sa sb.
+Lemma lifeP_skips : forall a b sa sb tr, Forall (fun t => ev_xact k rho t = None) tr -> lifeP a b sa sb tr sa sb.
 Proof. intros. apply Q_skips. assumption. Qed.
-
-(* [stage 6] the node's own store is constructed / destroyed *)
-Lemma lifeP_vdtor : forall a b h sa sb, lifeP a b (vko k h) sa sb (dtor_ev h) 0 sa sb.
-Proof.
-  intros a b [[sk0 v0]|] sa sb; unfold lifeP; simpl; [|apply Q_nil]. apply vdtor_life.
-Qed.
 
 End Key.
 
 Arguments lifeS k rho ext e st tr st' : simpl never.
-Arguments lifeP k rho ext a b o sa sb tr o' sa' sb' : simpl never.
+Arguments lifeP k rho ext a b sa sb tr sa' sb' : simpl never.
 (* ------------------------------------------------------------------------------------------------ *)
 (* The helper functions that assemble a result                                                      *)
 (* ------------------------------------------------------------------------------------------------ *)
@@ -635,61 +467,23 @@ Definition Lgood (e : sexpr) (st0 : ost) (r : res) : Prop := lifeS k rho ext e s
 Definition GLs (e : sexpr) (st0 : ost) (r : res) : Prop := good2 e r /\ Lgood e st0 r.
 Local Notation GL e r := (GLs e OFin r).
 
-Lemma lifeP_cons_skip : forall a b o sa sb t tr o' sa' sb', ev_xact k rho t = None ->
-  lifeP k rho ext a b o sa sb tr o' sa' sb' -> lifeP k rho ext a b o sa sb (t :: tr) o' sa' sb'.
+Lemma lifeP_cons_skip : forall a b sa sb t tr sa' sb', ev_xact k rho t = None ->
+  lifeP k rho ext a b sa sb tr sa' sb' -> lifeP k rho ext a b sa sb (t :: tr) sa' sb'.
 Proof. intros. apply Q_skip; assumption. Qed.
 
 Lemma lifeS_cons_skip : forall e st t tr st', ev_xact k rho t = None ->
   lifeS k rho ext e st tr st' -> lifeS k rho ext e st (t :: tr) st'.
 Proof. intros. apply Q_skip; assumption. Qed.
 
-(* [stage 6] a store is constructed: like a block it counts as completed-alive at once *)
-Lemma vctor_life : forall sk v m r d, lifeQ k m rho ext r d [TValCtor sk v] r (vk k sk v + d).
-Proof.
-  intros sk v m r d p. exists p. unfold vk. destruct (vkb k sk v) eqn:E; simpl.
-  - assert (is_alloc k = true) as A by (unfold vkb in E; destruct k; try discriminate; reflexivity).
-    apply X_start; [simpl; rewrite E; reflexivity|right; exact A|].
-    apply X_ext; [apply Hal; exact A|apply X_nil].
-  - apply X_skip; [simpl; rewrite E; reflexivity|apply X_nil].
-Qed.
-
-Lemma lifeP_vctor : forall a b h sa sb, lifeP k rho ext a b 0 sa sb (ctor_ev h) (vko k h) sa sb.
-Proof.
-  intros a b [[sk0 v0]|] sa sb; unfold lifeP; simpl; [|apply Q_nil].
-  apply vctor_life.
-Qed.
-
-(* the side condition of the framing pieces: the node's own stores only exist for the keys of stored values *)
-Lemma add_alloc : forall x y, x = 0 \/ is_alloc k = true -> y = 0 \/ is_alloc k = true -> x + y = 0 \/ is_alloc k = true.
-Proof. intros x y [->|H] [->|H']; auto. Qed.
-
-Ltac ownok :=
-  solve [ left; reflexivity | apply vko_alloc | apply own_alloc | apply vk_alloc
-        | repeat first [apply add_alloc | apply vk_alloc | apply vko_alloc | apply own_alloc | left; reflexivity] ].
-
-(* the first child's operation is destroyed after the node's store was constructed *)
-Lemma lifeP_dtor1 : forall a b h sa sb, done_st a sa ->
-  lifeP k rho ext a b 0 sa sb (dtor1 h a sa) (vko k h) OFin sb.
-Proof.
-  intros a b h sa sb D. unfold dtor1. eapply lifeP_app; [apply lifeP_vctor|].
-  apply lifeP_dtor_a; [exact D|apply vko_alloc].
-Qed.
-
 Ltac pieceP :=
-  first [ eapply lifeP_a; [eassumption|ownok]
-        | eapply lifeP_b; [eassumption|ownok]
-        | eapply lifeP_dtor_a; [eassumption|ownok]
-        | eapply lifeP_dtor_b; [eassumption|ownok]
-        | eapply lifeP_dtor1; eassumption
-        | eapply lifeP_vdtor
-        | eapply lifeP_vctor
+  first [ eapply lifeP_a; eassumption
+        | eapply lifeP_b; eassumption
+        | eapply lifeP_dtor_a; eassumption
+        | eapply lifeP_dtor_b; eassumption
         | eapply lifeP_skips; solve [repeat constructor | assumption]
         | eassumption ].
-Ltac normP :=
-  cbn [kid kid2 own wrap]; unfold node_store; rw_flags; cbn [vko];
-  rewrite <- ?app_assoc, ?app_nil_r.
 Ltac chainP :=
-  normP;
+  cbn [kid kid2]; rewrite <- ?app_assoc, ?app_nil_r;
   repeat first [ apply lifeP_nil | pieceP | apply lifeP_cons_skip; [reflexivity|]
                | eapply lifeP_app; [pieceP|] ].
 
@@ -705,16 +499,15 @@ Ltac chainS :=
 Lemma un_result_skips : forall kk o, Forall (fun t => ev_xact k rho t = None) (fst (un_result kk o)).
 Proof. intros kk o. destruct kk, o; simpl; repeat constructor. Qed.
 
-Ltac blk0 := simpl; first [reflexivity | apply blk_other; solve [assumption | discriminate | reflexivity]
+Ltac blk0 := simpl; first [reflexivity | apply blk_other; solve [assumption | discriminate]
                            | match goal with |- context [blk _ _ ?st] => destruct st; reflexivity end].
 
-(* st0: the state of a live unary node (no wrappers: blk st0 is its block only) *)
-Lemma un_done_L : forall kk s st0 sc tr o, kk <> UAllocate -> unwrap st0 = st0 -> done_st s sc -> lifeS k rho ext s (kid st0) tr sc ->
+Lemma un_done_L : forall kk s st0 sc tr o, kk <> UAllocate -> done_st s sc -> lifeS k rho ext s (kid st0) tr sc ->
   Lgood (Un kk s) st0 (un_done kk s sc tr o).
 Proof.
-  intros kk s st0 sc tr o NA U0 D H. pose proof (blk_other k kk st0 U0 NA) as B0. unfold un_done. pose proof (un_result_skips kk o) as SK.
+  intros kk s st0 sc tr o NA D H. unfold un_done. pose proof (un_result_skips kk o) as SK.
   destruct (un_result kk o) as [tr2 o']. simpl in SK.
-  destruct (un_eager kk o); unfold Lgood; simpl; (apply lifeS_un; [chainS|rewrite B0; reflexivity]).
+  destruct (un_eager kk o); unfold Lgood; simpl; (apply lifeS_un; [chainS|blk0]).
 Qed.
 
 (* ---- [stage 5] blocks: connect, unwinding, the start of an allocate ---- *)
@@ -831,110 +624,50 @@ Proof.
   intros kk s en sc x tr0 r H. unfold Lgood, lifeS in *. simpl fst. simpl snd.
   rewrite !nr_un, !nd_un. simpl kid. rewrite nr_fin, nd_fin in *.
   change (cap k (Un kk s)) with (ublk k kk + cap k s).
-  destruct kk; try exact (Q_frame_l _ _ _ _ _ _ _ _ _ H 0 0 0 (or_introl (le_n 0))).
+  destruct kk; try exact (Q_frame_l _ _ _ _ _ _ _ _ _ H 0 0 0 (le_n 0)).
   simpl. change (TAlloc (e_alloc en) :: tr0) with ([TAlloc (e_alloc en)] ++ tr0).
   eapply Q_app; [eapply Q_cast; [apply alloc_life|reflexivity|reflexivity]|].
-  pose proof (Q_frame_l _ _ _ _ _ _ _ _ _ H 0 (ak k (e_alloc en)) (alk k) (or_introl (ak_le k _))) as F.
+  pose proof (Q_frame_l _ _ _ _ _ _ _ _ _ H 0 (ak k (e_alloc en)) (alk k) (ak_le k _)) as F.
   eapply Q_cast; [exact F|simpl; lia|reflexivity].
 Qed.
 
-Lemma own_wrap : forall kk h st, own k kk (wrap h st) = vko k h + own k kk st.
-Proof. intros kk [[sk0 v0]|] st; reflexivity. Qed.
-Lemma kid_wrap : forall h st, kid (wrap h st) = kid st.
-Proof. intros [[sk0 v0]|] st; reflexivity. Qed.
-Lemma kid2_wrap : forall h st, kid2 (wrap h st) = kid2 st.
-Proof. intros [[sk0 v0]|] st; reflexivity. Qed.
-
-Lemma seq_pass_L : forall kk a b st0 sa tr o, done_st a sa ->
-  lifeP k rho ext a b (own k kk st0) (kid st0) (kid2 st0) tr 0 sa OFin ->
+Lemma seq_pass_L : forall kk a b st0 sa tr o, done_st a sa -> lifeP k rho ext a b (kid st0) (kid2 st0) tr sa OFin ->
   Lgood (Bin kk a b) st0 (seq_pass kk a sa tr o).
 Proof.
   intros kk a b st0 sa tr o D H. unfold seq_pass.
   destruct (eager_dtor kk); unfold Lgood; simpl; apply lifeS_bin; chainP.
 Qed.
 
-(* [stage 6] h = the store the node holds while its second child runs *)
-Lemma seq_final_L : forall kk h a b st0 sb tr o, done_st b sb ->
-  lifeP k rho ext a b (own k kk st0) (kid st0) (kid2 st0) tr (vko k h) OFin sb ->
-  Lgood (Bin kk a b) st0 (seq_final kk h b sb tr o).
+Lemma seq_final_L : forall kk a b st0 sb tr o, done_st b sb -> lifeP k rho ext a b (kid st0) (kid2 st0) tr OFin sb ->
+  Lgood (Bin kk a b) st0 (seq_final kk b sb tr o).
 Proof.
-  intros kk h a b st0 sb tr o D H. unfold seq_final.
-  destruct (eager_dtor kk); unfold Lgood; simpl; apply lifeS_bin.
-  - chainP.
-  - rewrite own_wrap, kid_wrap, kid2_wrap. simpl. rewrite Nat.add_0_r. exact H.
+  intros kk a b st0 sb tr o D H. unfold seq_final.
+  destruct (eager_dtor kk); unfold Lgood; simpl; apply lifeS_bin; chainP.
 Qed.
 
-(* [stage 6] conc_reap: the store made from the child's value goes around the child's slot; when_any's optResult
-   belongs to the node: [cev] *)
-Definition cev (kk : bkind) (ns : nst) (o : option outcome) : list tev :=
-  match o with
-  | Some (OVal v) => match kk, cell ns with BWhenAny, None => [TValCtor SCell v] | _, _ => [] end
-  | _ => []
-  end.
-Definition nocell (ns : nst) : nst := ns_set_cell ns (Some 0%Z).
-
-Lemma conc_reap_cell : forall kk i ns c r,
-  conc_reap kk i ns c r = let '(s, t, o) := conc_reap kk i (nocell ns) c r in (s, t ++ cev kk ns o, o).
+Lemma conc_reap_L : forall kk c st0 r, good2 c r -> Lgood c st0 r -> Lgood c st0 (conc_reap kk c r).
 Proof.
-  intros kk i ns c [[sc tr] [[v|x| |v|v]|]]; unfold conc_reap, cev, nocell; simpl;
-    destruct kk; simpl; rewrite ?app_nil_r; try reflexivity;
-    try (destruct i; simpl; rewrite ?app_nil_r; reflexivity).
-  destruct (cell ns); simpl; rewrite ?app_nil_r; [reflexivity|].
-  rewrite <- app_assoc. reflexivity.
+  intros kk c st0 [[sc tr] [[v|x| |v|v]|]] G H; destruct kk; simpl; auto.
+  unfold Lgood in *; simpl in *. unfold good2 in G. chainS.
 Qed.
 
-Lemma conc_reap_L : forall kk i ns c st0 r, good2 c r -> Lgood c st0 r -> Lgood c st0 (conc_reap kk i (nocell ns) c r).
-Proof.
-  intros kk i ns c st0 [[sc tr] [[v|x| |v|v]|]] G H; destruct kk; simpl; auto; try (destruct i; simpl; auto);
-    unfold Lgood, lifeS in *; simpl in *; unfold good2 in G.
-  all: try solve [eapply Q_app; [exact H|]; apply vctor_life].
-  (* when_any *)
-  all: change (TValCtor SAnyV v :: dtor c sc ++ []) with ([TValCtor SAnyV v] ++ dtor c sc ++ []); rewrite app_nil_r;
-    (eapply Q_app; [exact H|]); (eapply Q_app; [apply vctor_life|]);
-    rewrite (done_nr k c sc G), Nat.add_0_r;
-    replace (vk k SAnyV v + nd k c sc) with (nd k c sc + vk k SAnyV v) by lia; apply dtor_life; exact G.
-Qed.
-
-Lemma ccd_cell : forall kk ns i o ns' nw fin, conc_child_done kk ns i o = (ns', nw, fin) ->
-  cell ns' = match kk, conc_in kk o, cell ns with BWhenAny, OVal v, None => Some v | _, _, _ => cell ns end.
-Proof.
-  intros kk ns i o ns' nw fin. unfold conc_child_done.
-  destruct (adone _ && bdone _); intros H; inversion H; subst; clear H; simpl;
-    destruct kk; try reflexivity; destruct o; simpl; try reflexivity; destruct (cell ns); reflexivity.
-Qed.
-
-(* the node-level event of a child's completion takes the node's own store from cell ns to cell ns' *)
-Lemma cev_life : forall kk ns i o ns' nw fin a b sa sb, conc_child_done kk ns i o = (ns', nw, fin) ->
-  lifeP k rho ext a b (vko k (cellst kk (cell ns))) sa sb (cev kk ns (Some o)) (vko k (cellst kk (cell ns'))) sa sb.
-Proof.
-  intros kk ns i o ns' nw fin a b sa sb E. rewrite (ccd_cell _ _ _ _ _ _ _ E). unfold cev.
-  destruct o; simpl; try (destruct kk; simpl; apply lifeP_nil).
-  destruct kk; simpl; try apply lifeP_nil.
-  destruct (cell ns); simpl; [apply lifeP_nil|]. unfold lifeP. simpl. apply vctor_life.
-Qed.
-
-Lemma finish_conc_L : forall kk a b st0 ns sa sb tr fin leak, is_seq kk = false ->
+Lemma finish_conc_L : forall kk a b st0 ns sa sb tr fin leak,
   (fin <> None -> done_st a sa /\ done_st b sb) ->
-  lifeP k rho ext a b (own k kk st0) (kid st0) (kid2 st0) tr (vko k (cellst kk (cell ns))) sa sb ->
+  lifeP k rho ext a b (kid st0) (kid2 st0) tr sa sb ->
   Lgood (Bin kk a b) st0 (finish_conc kk a b ns sa sb tr fin leak).
 Proof.
-  intros kk a b st0 ns sa sb tr [o|] leak Hk D H; unfold finish_conc.
+  intros kk a b st0 ns sa sb tr [o|] leak D H; unfold finish_conc.
   - destruct D as (Da & Db); [discriminate|].
-    assert (forall X : list tev, X = [] \/ X = [TLeak (e_root (n_env ns))] -> cellst kk (cell ns) = None ->
+    assert (forall X : list tev, X = [] \/ X = [TLeak (e_root (n_env ns))] ->
             Lgood (Bin kk a b) st0 (OCompl sa sb, tr ++ X, Some o)) as G.
-    { intros X [->| ->] C; rewrite C in H; unfold Lgood; simpl; apply lifeS_bin; chainP. }
-    destruct kk; try (apply G; [destruct (leak && reg ns); auto|destruct (cell ns); reflexivity]); try discriminate Hk.
-    (* when_any *)
-    simpl in H. destruct (cell ns) as [cv|]; simpl in H.
-    + assert (lifeP k rho ext a b (vk k SCell cv) OFin OFin [TValCtor SAnyJ cv] (vk k SCell cv + (vk k SAnyJ cv + 0)) OFin OFin) as J.
-      { unfold lifeP. simpl.
-        replace (vk k SCell cv + (vk k SAnyJ cv + 0) + 0) with (vk k SAnyJ cv + (vk k SCell cv + 0)) by lia. apply vctor_life. }
-      destruct o; unfold Lgood; simpl; apply lifeS_bin; cbn [own kid kid2]; rewrite <- ?app_assoc;
-        try (rewrite Nat.add_0_r; exact H);
-        (eapply lifeP_app; [exact H|]); (eapply lifeP_app; [eapply lifeP_dtor_a; [eassumption|ownok]|]);
-        (eapply lifeP_app; [eapply lifeP_dtor_b; [eassumption|ownok]|]); exact J.
-    + destruct o; unfold Lgood; simpl; apply lifeS_bin; chainP.
-  - unfold Lgood; simpl; apply lifeS_bin. cbn [own kid kid2]. unfold node_store. rewrite Hk. exact H.
+    { intros X [->| ->]; unfold Lgood; simpl; apply lifeS_bin; chainP. }
+    assert (Lgood (Bin kk a b) st0 (OCompl sa sb, tr, Some o)) as G0.
+    { unfold Lgood; simpl; apply lifeS_bin; chainP. }
+    assert (Lgood (Bin kk a b) st0 (OFin, tr ++ dtor a sa ++ dtor b sb, Some o)) as G1.
+    { unfold Lgood; simpl; apply lifeS_bin; chainP. }
+    destruct kk; try (apply G; destruct (leak && reg ns); auto).
+    destruct o; auto.
+  - unfold Lgood; simpl; apply lifeS_bin; chainP.
 Qed.
 
 (* repeat_effect_until *)
@@ -956,72 +689,68 @@ Proof.
     destruct r'; [destruct IH as (IH & B); split; [chainS|exact B]|chainS].
 Qed.
 
-Lemma rep_done_L : forall l s st0 ns sc tr o r0, unwrap st0 = st0 ->
+Lemma rep_done_L : forall l s st0 ns sc tr o r0,
   done_st s sc -> lifeS k rho ext s (kid st0) tr sc -> GL s r0 ->
   Lgood (Un (URepeat l) s) st0 (rep_done l s ns sc tr o r0).
 Proof.
-  intros l s st0 ns sc tr o r0 U0 D H G. assert (blk k (URepeat l) st0 = 0) as B0 by (apply blk_other; [exact U0|discriminate]).
-  unfold rep_done.
-  destruct o; try solve [unfold Lgood; simpl; (apply lifeS_un; [chainS|rewrite B0; reflexivity])];
+  intros l s st0 ns sc tr o r0 D H G. unfold rep_done.
+  destruct o; try solve [unfold Lgood; simpl; (apply lifeS_un; [chainS|blk0])];
   pose proof (rep_loop_L s r0 (skipn (n_iter ns) l) (n_iter ns) G) as R;
   destruct (rep_loop s r0 (skipn (n_iter ns) l) (n_iter ns)) as [i' [[sc' tr'] r']];
   (destruct r'; [destruct R as (R & B)|]); unfold Lgood; simpl;
-  (apply lifeS_un; [chainS|rewrite B0; try rewrite B; reflexivity]).
+  (apply lifeS_un; [chainS|try rewrite B; blk0]).
 Qed.
 
-(* retry_when: the node itself owns no store *)
+(* retry_when *)
 Lemma retry_err_L : forall a b r0a r0bl rem i rbe e,
   GL a r0a -> (res_err r0a <> None -> GL b r0bl) -> GL b rbe ->
   match retry_err a b r0a r0bl rem i rbe e with
-  | (_, _, (st', tr', _)) => lifeP k rho ext a b 0 OFin OFin tr' 0 (kid st') (kid2 st') /\ forall kk, own k kk st' = 0
+  | (_, _, (st', tr', _)) => lifeP k rho ext a b OFin OFin tr' (kid st') (kid2 st')
   end.
 Proof.
   intros a b [[sa tra] ra] r0bl rem. induction rem as [|rem IH]; intros i [[sb trb] rb] e Ga Gl Gb; simpl.
-  - split; [chainP|reflexivity].
+  - chainP.
   - destruct Ga as (Ga & La). destruct Gb as (Gb & Lb). unfold good2 in Ga, Gb. unfold Lgood in La, Lb.
     simpl in La, Lb.
-    destruct rb as [[v|x| |v|v]|]; try solve [split; [chainP|reflexivity]].
-    destruct ra as [[v'|x'| |v'|v']|]; try solve [split; [chainP|reflexivity]].
+    destruct rb as [[v|x| |v|v]|]; try solve [chainP].
+    destruct ra as [[v'|x'| |v'|v']|]; try solve [chainP].
     assert (GL b r0bl) as Gl' by (apply Gl; simpl; discriminate).
     specialize (IH (S i) r0bl x' (conj Ga La) Gl Gl').
     destruct (retry_err a b (sa, tra, Some (OErr x')) r0bl rem (S i) r0bl x') as [[i' p'] [[st' tr'] r']].
-    destruct IH as (IH & O). split; [chainP|exact O].
+    chainP.
 Qed.
 
-Lemma own_retry : forall n ns sa sb, own k (BRetry n) (ONode ns sa sb) = 0.
-Proof. intros. simpl. unfold node_store. simpl. destruct (ph ns); reflexivity. Qed.
-
-Lemma retry_node_L : forall n a b st0 ns x tr0, own k (BRetry n) st0 = 0 ->
-  lifeP k rho ext a b 0 (kid st0) (kid2 st0) tr0 0 OFin OFin ->
-  (match x with (_, _, (st', tr', _)) => lifeP k rho ext a b 0 OFin OFin tr' 0 (kid st') (kid2 st') /\ forall kk, own k kk st' = 0 end) ->
-  Lgood (Bin (BRetry n) a b) st0 (retry_node ns x tr0).
+Lemma retry_node_L : forall kk a b st0 ns x tr0,
+  lifeP k rho ext a b (kid st0) (kid2 st0) tr0 OFin OFin ->
+  (match x with (_, _, (st', tr', _)) => lifeP k rho ext a b OFin OFin tr' (kid st') (kid2 st') end) ->
+  Lgood (Bin kk a b) st0 (retry_node ns x tr0).
 Proof.
-  intros n a b st0 ns [[i' p'] [[st' tr'] r']] tr0 O0 H0 (H & O1). unfold retry_node.
+  intros kk a b st0 ns [[i' p'] [[st' tr'] r']] tr0 H0 H. unfold retry_node.
   destruct r' as [o|].
-  - unfold Lgood; simpl; apply lifeS_bin; rewrite O0, O1. chainP.
-  - destruct st'; unfold Lgood; simpl fst; simpl snd; apply lifeS_bin; rewrite O0, ?O1, ?own_retry; simpl in H; chainP.
+  - unfold Lgood; simpl; apply lifeS_bin; chainP.
+  - destruct st'; unfold Lgood; simpl; apply lifeS_bin; simpl in H; chainP.
 Qed.
 
-Lemma retry_a_done_L : forall n a b st0 ns sa tr oa r0a r0bl rbe, own k (BRetry n) st0 = 0 ->
-  done_st a sa -> lifeP k rho ext a b 0 (kid st0) (kid2 st0) tr 0 sa OFin ->
+Lemma retry_a_done_L : forall n a b st0 ns sa tr oa r0a r0bl rbe,
+  done_st a sa -> lifeP k rho ext a b (kid st0) (kid2 st0) tr sa OFin ->
   GL a r0a -> (res_err r0a <> None -> GL b r0bl) -> (forall e, oa = OErr e -> GL b rbe) ->
   Lgood (Bin (BRetry n) a b) st0 (retry_a_done n a b ns sa tr oa r0a r0bl rbe).
 Proof.
-  intros n a b st0 ns sa tr oa r0a r0bl rbe O0 D H Ga Gl Gb. unfold retry_a_done.
-  destruct oa as [v|x| |v|v]; try solve [unfold Lgood; simpl; apply lifeS_bin; rewrite O0; chainP].
-  apply retry_node_L; [exact O0|chainP|]. apply retry_err_L; auto. eapply Gb; reflexivity.
+  intros n a b st0 ns sa tr oa r0a r0bl rbe D H Ga Gl Gb. unfold retry_a_done.
+  destruct oa as [v|x| |v|v]; try solve [unfold Lgood; simpl; apply lifeS_bin; chainP].
+  apply retry_node_L; [chainP|]. apply retry_err_L; auto. eapply Gb; reflexivity.
 Qed.
 
-Lemma retry_b_done_L : forall n a b st0 ns sb tr ob r0a r0bl, own k (BRetry n) st0 = 0 ->
-  done_st b sb -> lifeP k rho ext a b 0 (kid st0) (kid2 st0) tr 0 OFin sb ->
+Lemma retry_b_done_L : forall n a b st0 ns sb tr ob r0a r0bl,
+  done_st b sb -> lifeP k rho ext a b (kid st0) (kid2 st0) tr OFin sb ->
   GL a r0a -> (res_err r0a <> None -> GL b r0bl) ->
   Lgood (Bin (BRetry n) a b) st0 (retry_b_done n a b ns sb tr ob r0a r0bl).
 Proof.
-  intros n a b st0 ns sb tr ob [[sa tra] ra] r0bl O0 D H Ga Gl. unfold retry_b_done.
-  destruct ob as [v|x| |v|v]; try solve [unfold Lgood; simpl; apply lifeS_bin; rewrite O0; chainP];
+  intros n a b st0 ns sb tr ob [[sa tra] ra] r0bl D H Ga Gl. unfold retry_b_done.
+  destruct ob as [v|x| |v|v]; try solve [unfold Lgood; simpl; apply lifeS_bin; chainP];
   pose proof Ga as (Ga' & La); unfold good2 in Ga'; unfold Lgood in La; simpl in La;
-  (destruct ra as [[v'|x'| |v'|v']|]; try solve [unfold Lgood; simpl; apply lifeS_bin; rewrite O0, ?own_retry; chainP]);
-  (apply retry_node_L; [exact O0|chainP|]); apply retry_err_L; auto; apply Gl; simpl; discriminate.
+  (destruct ra as [[v'|x'| |v'|v']|]; try solve [unfold Lgood; simpl; apply lifeS_bin; chainP]);
+  (apply retry_node_L; [chainP|]); apply retry_err_L; auto; apply Gl; simpl; discriminate.
 Qed.
 
 (* the shapes in which start / stop / leafev pass the pre-computed restarts to retry_when's helpers *)
@@ -1042,33 +771,22 @@ Proof. intros b oa en cx IH e ->. apply IH. Qed.
 
 End Helpers.
 
-Lemma conc_reap_GL : forall k rho ext, (is_alloc k = true -> ext = true) -> forall kk i ns c st0 r,
-  GLs k rho ext c st0 r -> GLs k rho ext c st0 (conc_reap kk i (nocell ns) c r).
-Proof. intros k rho ext Hal kk i ns c st0 r (G & L). split; [apply conc_reap_good; exact G|apply conc_reap_L; assumption]. Qed.
+Lemma conc_reap_GL : forall k rho ext kk c st0 r, GLs k rho ext c st0 r -> GLs k rho ext c st0 (conc_reap kk c r).
+Proof. intros k rho ext kk c st0 r (G & L). split; [apply conc_reap_good; exact G|apply conc_reap_L; assumption]. Qed.
 
 (* ------------------------------------------------------------------------------------------------ *)
 (* Symbolic execution of the big matches                                                            *)
 (* ------------------------------------------------------------------------------------------------ *)
 
-Ltac ownok :=
-  solve [ left; reflexivity | apply vko_alloc | apply own_alloc | apply vk_alloc
-        | repeat first [apply add_alloc | apply vk_alloc | apply vko_alloc | apply own_alloc | left; reflexivity] ].
 Ltac pieceP :=
-  first [ eapply lifeP_a; [eassumption|ownok]
-        | eapply lifeP_b; [eassumption|ownok]
-        | eapply lifeP_dtor_a; [eassumption|ownok]
-        | eapply lifeP_dtor_b; [eassumption|ownok]
-        | eapply lifeP_dtor1; eassumption
-        | eapply lifeP_vdtor
-        | eapply lifeP_vctor
+  first [ eapply lifeP_a; eassumption
+        | eapply lifeP_b; eassumption
+        | eapply lifeP_dtor_a; eassumption
+        | eapply lifeP_dtor_b; eassumption
         | eapply lifeP_skips; solve [repeat constructor | assumption]
-        | match goal with H : forall a b sa sb, lifeP _ _ _ a b _ sa sb (cev _ _ _) _ sa sb |- lifeP _ _ _ _ _ _ _ _ (cev _ _ _) _ _ _ => apply H end
         | eassumption ].
-Ltac normP :=
-  cbn [kid kid2 own wrap]; unfold node_store; rw_flags; cbn [vko cell];
-  rewrite <- ?app_assoc, ?app_nil_r.
 Ltac chainP :=
-  normP;
+  cbn [kid kid2]; rewrite <- ?app_assoc, ?app_nil_r;
   repeat first [ apply lifeP_nil | pieceP | apply lifeP_cons_skip; [reflexivity|]
                | eapply lifeP_app; [pieceP|] ].
 Ltac pieceS :=
@@ -1082,9 +800,7 @@ Ltac chainS :=
 
 Opaque conc_child_done un_result after_first after_second is_seq un_done seq_pass seq_final conc_reap
        finish_conc rep_done retry_a_done retry_b_done un_own un_nst un_env fired res_err dtor
-       thrown un_in bin_in tmode un_throw bin_throw un_catch bin_catch sthrows sconn un_pre
-       dtor1 held let_cell nocell.
-Arguments cev kk ns o : simpl nomatch.
+       thrown un_in bin_in tmode un_throw bin_throw un_catch bin_catch sthrows sconn un_pre.
 Arguments good2 e r : simpl never.
 Arguments Lgood k rho ext e st0 r : simpl never.
 Arguments GLs k rho ext e st0 r : simpl never.
@@ -1108,28 +824,22 @@ Ltac lstep_on k rho ext x :=
   | leafev ?a ?st ?id ?o ?cx =>
       try (assert (GLs k rho ext a st (fst (leafev a st id o cx))) by auto);
       revert_about x; destruct x as [[[? ?] [?|]] ?]; intros; simpl_gl; subst
-  | conc_reap ?kk ?i (nocell ?ns) ?a (start ?a ?en ?cx) =>
+  | conc_reap ?kk ?a (start ?a ?en ?cx) =>
       try (assert (GLs k rho ext a OFin x) by (apply conc_reap_GL; auto));
       revert_about x; destruct x as [[? ?] [?|]]; intros; simpl_gl; subst
-  | conc_reap ?kk ?i (nocell ?ns) ?a (stop ?a ?st ?cx) =>
+  | conc_reap ?kk ?a (stop ?a ?st ?cx) =>
       try (assert (GLs k rho ext a st x) by (apply conc_reap_GL; auto));
       revert_about x; destruct x as [[? ?] [?|]]; intros; simpl_gl; subst
-  | conc_reap ?kk ?i (nocell ?ns) ?a (?s, ?t, ?r) =>
+  | conc_reap ?kk ?a (?s, ?t, ?r) =>
       try (match goal with
            | H : lifeS _ _ _ a ?st0 t s |- _ =>
                assert (GLs k rho ext a st0 x)
-                 by (apply conc_reap_GL; [assumption|]; split; [unfold good2; simpl; auto|unfold Lgood; simpl; exact H])
+                 by (apply conc_reap_GL; split; [unfold good2; simpl; auto|unfold Lgood; simpl; exact H])
            end);
       revert_about x; destruct x as [[? ?] [?|]]; intros; simpl_gl; subst
-  | conc_reap ?kk ?i ?ns ?a ?y => rewrite (conc_reap_cell kk i ns a y)
   | conc_child_done ?kk ?ns ?i ?o =>
       let E := fresh "E" in
       destruct x as [[? ?] ?] eqn:E;
-      (let CE := fresh "CE" in
-       match goal with
-       | Hal' : is_alloc k = true -> ext = true |- _ =>
-           pose proof (fun a b sa sb => cev_life k rho ext Hal' _ _ _ _ _ _ _ a b sa sb E) as CE; cbn [cell ns_set_own ns_set_env ns_set_reg] in CE
-       end);
       apply ccd_spec in E; simpl in E; rw_flags_in E; simpl in E;
       destruct E as (? & ? & E);
       match type of E with match ?f with _ => _ end => destruct f; try discriminate E end;
@@ -1165,19 +875,18 @@ Ltac finish_L :=
   first
     [ solve [unfold Lgood, lifeS; simpl; apply sconn_life; assumption]
     | apply un_start_L; [assumption | solve [chainS]]
-    | apply un_done_L; [first [discriminate | eapply un_own_not_alloc; eassumption] | reflexivity | solve [auto] | solve [chainS]]
-    | apply rep_done_L; [reflexivity | solve [auto] | solve [chainS] | solve [auto | gl_tuple]]
+    | apply un_done_L; [first [discriminate | eapply un_own_not_alloc; eassumption] | solve [auto] | solve [chainS]]
+    | apply rep_done_L; [solve [auto] | solve [chainS] | solve [auto | gl_tuple]]
     | apply seq_pass_L; [solve [auto] | solve [chainP]]
     | apply seq_final_L; [solve [auto] | solve [chainP]]
     | apply retry_a_done_L;
-        [ solve [reflexivity | apply own_retry] | solve [auto] | solve [chainP] | solve [auto | gl_tuple]
+        [ solve [auto] | solve [chainP] | solve [auto | gl_tuple]
         | solve [apply retry_bl_GL; auto | apply retry_bl_start_GL; auto]
         | solve [apply retry_be_GL; auto | intros; discriminate] ]
     | apply retry_b_done_L;
-        [ solve [reflexivity | apply own_retry] | solve [auto] | solve [chainP] | solve [auto | gl_tuple] | solve [apply retry_bl_GL; auto] ]
+        [ solve [auto] | solve [chainP] | solve [auto | gl_tuple] | solve [apply retry_bl_GL; auto] ]
     | apply finish_conc_L;
-        [ assumption | assumption
-        | let X := fresh in intros X; first [ exfalso; apply X; reflexivity | split; solve [auto] ]
+        [ let X := fresh in intros X; first [ exfalso; apply X; reflexivity | split; solve [auto] ]
         | solve [chainP] ]
     | unfold Lgood; simpl;
       first [ apply lifeS_un; [solve [chainS] | solve [blkeq]] | apply lifeS_bin; solve [chainP] | solve [chainS] ] ].
@@ -1295,15 +1004,15 @@ Proof.
   - (* Leaf *)
     split; [|split].
     + intros en cx. simpl. destruct (sthrows _) eqn:TH; [sthrow_solve|]. destruct (e_stopped en); leaf_solveX.
-    + intros st cx H. destruct st as [|[|] [|]| | | |? ? ?]; simpl in *; try contradiction; leaf_solveX.
-    + intros st id0 o cx H Hx. destruct st as [|[|] sn| | | |? ? ?]; simpl in *; try contradiction.
+    + intros st cx H. destruct st as [|[|] [|]| | |]; simpl in *; try contradiction; leaf_solveX.
+    + intros st id0 o cx H Hx. destruct st as [|[|] sn| | |]; simpl in *; try contradiction.
       destruct (Nat.eqb id0 id) eqn:E; [apply Nat.eqb_eq in E; subst; assert (lkb k id = true -> ext = true) by (intros L; apply Hx, lkb_addr, L)|]; leaf_solveX.
   - (* LeafN *)
     assert (rho id = true) as R by (apply Hr; simpl; auto).
     split; [|split].
     + intros en cx. simpl. destruct (sthrows _) eqn:TH; [sthrow_solve|]. destruct (e_stopped en); leaf_solveX.
-    + intros st cx H. destruct st as [|[|] [|]| | | |? ? ?]; simpl in *; try contradiction; leaf_solveX.
-    + intros st id0 o cx H Hx. destruct st as [|[|] [|]| | | |? ? ?]; simpl in *; try contradiction.
+    + intros st cx H. destruct st as [|[|] [|]| | |]; simpl in *; try contradiction; leaf_solveX.
+    + intros st id0 o cx H Hx. destruct st as [|[|] [|]| | |]; simpl in *; try contradiction.
       destruct (Nat.eqb id0 id) eqn:E; [apply Nat.eqb_eq in E; subst; assert (lkb k id = true -> ext = true) by (intros L; apply Hx, lkb_addr, L)|]; leaf_solveX.
   - (* Sched *)
     assert (ST : forall m, sk k c <= m -> lifeQ k m rho ext 0 0 [TSchedStart id c] (sk k c) 0).
@@ -1317,16 +1026,16 @@ Proof.
     + intros en cx. simpl. destruct (sthrows _) eqn:TH; [sthrow_solve|].
       unfold GLs, good2, Lgood, lifeS; simpl. split; [destruct (e_stopped en); exact I|].
       apply ST. apply le_n.
-    + intros st cx H. destruct st as [|[|] [|]| | | |? ? ?]; simpl in *; try contradiction;
+    + intros st cx H. destruct st as [|[|] [|]| | |]; simpl in *; try contradiction;
         unfold GLs, good2, Lgood, lifeS; simpl; (split; [exact I|apply Q_nil]).
-    + intros st id0 o cx H Hx. destruct st as [|[|] sn| | | |? ? ?]; simpl in *; try contradiction.
+    + intros st id0 o cx H Hx. destruct st as [|[|] sn| | |]; simpl in *; try contradiction.
       destruct (Nat.eqb id0 id); unfold GLs, good2, Lgood, lifeS; simpl; (split; [exact I|]);
         [apply (CO _ id0 Hx)|apply Q_nil].
   - (* LeafR *)
     split; [|split].
     + intros en cx. simpl. destruct (sthrows _) eqn:TH; [sthrow_solve|]. destruct (e_stopped en); leaf_solveX.
-    + intros st cx H. destruct st as [|[|] [|]| | | |? ? ?]; simpl in *; try contradiction; leaf_solveX.
-    + intros st id0 o cx H Hx. destruct st as [|[|] sn| | | |? ? ?]; simpl in *; try contradiction.
+    + intros st cx H. destruct st as [|[|] [|]| | |]; simpl in *; try contradiction; leaf_solveX.
+    + intros st id0 o cx H Hx. destruct st as [|[|] sn| | |]; simpl in *; try contradiction.
       * destruct (Nat.eqb id0 id) eqn:E; [apply Nat.eqb_eq in E; subst; assert (lkb k id = true -> ext = true) by (intros L; apply Hx, lkb_addr, L); destruct o|]; leaf_solveX.
       * destruct (Nat.eqb id0 id) eqn:E; [apply Nat.eqb_eq in E; subst; assert (lkb k id = true -> ext = true) by (intros L; apply Hx, lkb_addr, L)|]; leaf_solveX.
   - (* StopIf *)
@@ -1338,11 +1047,11 @@ Proof.
     destruct (IHs Hrs) as (IH1 & IH2 & IH3). split; [|split].
     + intros en cx. split; [apply spec_all|]. repeat lstep; finish_L.
     + intros st cx H. split; [apply spec_all; exact H|].
-      destruct st as [| |ns sc sx| | |? ? ?]; simpl in H; try contradiction.
+      destruct st as [| |ns sc sx| |]; simpl in H; try contradiction.
       destruct sx; try contradiction.
       destruct kk; simpl; repeat lstep; finish_L.
     + intros st id o cx H Hx. split; [apply spec_all; exact H|].
-      destruct st as [| |ns sc sx| | |? ? ?]; simpl in H; try contradiction.
+      destruct st as [| |ns sc sx| |]; simpl in H; try contradiction.
       destruct sx; try contradiction.
       repeat lstep; finish_L.
   - (* Bin *)
@@ -1354,7 +1063,7 @@ Proof.
       * repeat lstep; finish_L.
       * repeat lstep; finish_L.
     + intros st cx H. split; [apply spec_all; exact H|].
-      destruct st as [| |ns sa sb| | |? ? ?]; simpl in H; try contradiction.
+      destruct st as [| |ns sa sb| |]; simpl in H; try contradiction.
       destruct (is_seq kk) eqn:Hk.
       * destruct (ph ns) eqn:P0; try contradiction; destruct H as (Ha & Hb); subst;
           repeat lstep; finish_L.
@@ -1362,7 +1071,7 @@ Proof.
         destruct (adone ns) eqn:A0; destruct (bdone ns) eqn:B0; simpl in Hab; try discriminate; subst;
           repeat lstep; finish_L.
     + intros st id o cx H Hx. split; [apply spec_all; exact H|].
-      destruct st as [| |ns sa sb| | |? ? ?]; simpl in H; try contradiction.
+      destruct st as [| |ns sa sb| |]; simpl in H; try contradiction.
       destruct (is_seq kk) eqn:Hk.
       * destruct (ph ns) eqn:P0; try contradiction; destruct H as (Ha & Hb); subst;
           repeat lstep; finish_L.
@@ -1438,9 +1147,8 @@ Lemma no_touchC : forall k rho t, rho_key k rho = false -> ev_xact k rho t <> So
 Proof.
   intros k rho t H. destruct t; simpl; try discriminate;
     try (destruct (lkb k id) eqn:E; try discriminate);
-    try (destruct (skb k c); discriminate); try (destruct (akb k a); discriminate);
-    try (destruct (vkb k k0 v); discriminate).
-  destruct k as [i|c|a|sk0 v0]; simpl in *; try discriminate. apply Nat.eqb_eq in E. subst. rewrite H. discriminate.
+    try (destruct (skb k c); discriminate); try (destruct (akb k a); discriminate).
+  destruct k as [i|c|a]; simpl in *; try discriminate. apply Nat.eqb_eq in E. subst. rewrite H. discriminate.
 Qed.
 
 Theorem no_completion_unaddressed : forall k m rho r d tr r' d' p',
@@ -1501,8 +1209,8 @@ Lemma sim_cnt : forall k e st st', sim e st st' -> nr k e st' = nr k e st /\ nd 
 Proof.
   intros k. induction e as [v|x| |n|id|id|id c|id lvl| |id|kk s IHs|kk a IHa b IHb]; intros st st' [->|S]; auto;
     simpl in S; try contradiction.
-  destruct kk; try contradiction. destruct st as [| |ns sc sx| | |? ? ?]; try contradiction.
-  destruct sx; try contradiction. destruct st' as [| |ns' sc' sx'| | |? ? ?]; try contradiction.
+  destruct kk; try contradiction. destruct st as [| |ns sc sx| |]; try contradiction.
+  destruct sx; try contradiction. destruct st' as [| |ns' sc' sx'| |]; try contradiction.
   destruct sx'; try contradiction. destruct S as (E & S). destruct (IHs _ _ S) as (A & B). simpl.
   rewrite A, B, E. auto.
 Qed.
@@ -1569,11 +1277,11 @@ Theorem C02_step_start : forall k e pre,
 Proof.
   intros k e pre. unfold run. simpl. unfold run_start. destruct (cthrows e) eqn:C.
   - (* [stage 5] the root connect threw: the blocks taken were all returned, nothing else happened *)
-    simpl. rewrite tevs_app, tevs_XT. simpl. rewrite app_nil_r, ?nr_fin, ?nd_fin.
+    simpl. rewrite tevs_app, tevs_XT. simpl. rewrite app_nil_r, nr_fin, nd_fin.
     pose proof (conn_life k (rho_of e) (is_alloc k) (fun x => x) e 0 (cap k e) 0 0) as L.
     rewrite conn_throws, C in L. exact L.
   - pose proof (proj2 (proj1 (life_all k (rho_of e) (is_alloc k) e (fun x => x) (rho_of_ok e)) (root_env pre) 0%nat)) as L.
-    unfold Lgood, lifeS in L. rewrite ?nr_fin, ?nd_fin in L.
+    unfold Lgood, lifeS in L. rewrite nr_fin, nd_fin in L.
     destruct (start e (root_env pre) 0%nat) as [[st tr] [o|]]; simpl in *.
     + rewrite tevs_app, tevs_XT. simpl. rewrite app_nil_r. exact L.
     + rewrite tevs_XT. exact L.
@@ -1607,9 +1315,9 @@ Proof.
   intros k e pre script. cbv zeta. rewrite exec_run.
   pose proof (run_LInv k e pre script) as I. unfold LInv in I.
   destruct (run_inv e pre script) as ([(H & _ & W)|[(H & F)|(H & _ & F)]] & _); unfold run_end; rewrite H; try exact I.
-  simpl. rewrite tevs_app. simpl. rewrite tevs_XT, ?nr_fin, ?nd_fin.
+  simpl. rewrite tevs_app. simpl. rewrite tevs_XT, nr_fin, nd_fin.
   eapply life_app; [exact I|]. pose proof (lifeS_dtor k (rho_of e) false e _ F) as D. unfold lifeS in D.
-  rewrite ?nr_fin, ?nd_fin in D. eapply Q_coarse. exact D.
+  rewrite nr_fin, nd_fin in D. eapply Q_coarse. exact D.
 Qed.
 
 (* (d) nothing leaked: when the root completed, the run ends with every operation state destroyed *)
@@ -1624,7 +1332,7 @@ Proof.
     - rewrite exec_run, run_end_st. rewrite exec_run, run_end_roots in H. rewrite H. reflexivity.
     - destruct (C01_2_connect_throw e pre script H) as (E & _ & F & _). rewrite E. exact F. }
   split; [exact F|]. pose proof (C02_life k e pre script) as L. cbv zeta in L.
-  rewrite F, ?nr_fin, ?nd_fin in L. exact L.
+  rewrite F, nr_fin, nd_fin in L. exact L.
 Qed.
 
 (* ------------------------------------------------------------------------------------------------ *)
@@ -1806,27 +1514,13 @@ Qed.
 (* (e) the shape of the run-level trace *)
 Definition plain_x (x : xev) : Prop := match x with XT _ => True | XSkip => True | _ => False end.
 Definition is_dtor_ev (t : tev) : Prop :=
-  match t with TLeafDtor _ => True | TSchedDtor _ => True | TFree _ => True | TValDtor _ _ => True | _ => False end.
-
-Lemma wdtor_only_dtors : forall st, Forall is_dtor_ev (wdtor st).
-Proof.
-  induction st; simpl; try apply Forall_nil. apply Forall_app. split; [exact IHst|]. apply Forall_cons; [exact I|apply Forall_nil].
-Qed.
-
-Lemma stored_only_dtors : forall kk st, Forall is_dtor_ev (stored kk st).
-Proof.
-  intros kk st. destruct st; simpl; try apply Forall_nil. destruct (own_store kk k); [|apply Forall_nil].
-  apply Forall_cons; [exact I|apply Forall_nil].
-Qed.
+  match t with TLeafDtor _ => True | TSchedDtor _ => True | TFree _ => True | _ => False end.
 
 Lemma dtor_only_dtors : forall e st, Forall is_dtor_ev (dtor e st).
 Proof.
   induction e as [v|x| |n|id|id|id c|id lvl| |id|kk s IHs|kk a IHa b IHb]; intros st;
-    rewrite dtor_unwrap; apply Forall_app; (split; [|apply wdtor_only_dtors]);
-    pose proof (unwrap_idem st) as U;
-    destruct (unwrap st) as [|cc sn|ns sa sb|sa sb|v'|? ? ?]; simpl in U; try (exfalso; exact (unwrap_not_store _ _ _ _ U));
-    try destruct kk; simpl; rewrite ?app_nil_r;
-    repeat first [ apply Forall_nil | apply IHs | apply IHa | apply IHb | apply stored_only_dtors
+    destruct st as [|cc sn|ns sa sb|sa sb|v']; try destruct kk; simpl;
+    repeat first [ apply Forall_nil | apply IHs | apply IHa | apply IHb
                  | apply Forall_cons; [exact I|]
                  | apply Forall_app; split ].
 Qed.
@@ -2020,7 +1714,7 @@ Proof.
 Qed.
 
 Theorem alloc_dtor_id : forall s ns sc x, dtor (Un UAllocate s) (ONode ns sc x) = dtor s sc ++ [TFree (e_alloc (n_env ns))].
-Proof. intros. simpl. rewrite app_nil_r. reflexivity. Qed.
+Proof. reflexivity. Qed.
 
 Theorem alloc_conn_id : forall s al, exists tr, fst (conn (Un UAllocate s) al) = TAlloc al :: tr.
 Proof. intros s al. simpl. destruct (conn s al) as [tr th]. eexists; reflexivity. Qed.
@@ -2035,45 +1729,3 @@ Theorem env_alloc_kept : forall en b v,
 Proof. intros. repeat split. Qed.
 
 (* a stop request does not change the allocator stored in a node (all node-state updates keep e_alloc) *)
-
-(* ------------------------------------------------------------------------------------------------ *)
-(* [stage 6] stored values                                                                          *)
-(* ------------------------------------------------------------------------------------------------ *)
-
-(* (a) balance, per store kind and value: on every prefix of every run no more destructions than constructions (no
-   TValDtor without an earlier unmatched TValCtor, never two TValDtor for one TValCtor); when the root completed and
-   was destroyed, or the root connect threw, equally many *)
-Theorem C02_values_balanced : forall e pre script sk v,
-  (forall p q, tevs (r_tr (exec e pre script)) = p ++ q ->
-     cnt (KVal sk v) ADtor p <= cnt (KVal sk v) AStart p) /\
-  (r_roots (exec e pre script) = 1%nat \/ cthrows e = true ->
-   cnt (KVal sk v) AStart (tevs (r_tr (exec e pre script))) = cnt (KVal sk v) ADtor (tevs (r_tr (exec e pre script)))).
-Proof.
-  intros e pre script sk v. split.
-  - intros p q E. pose proof (C02_life (KVal sk v) e pre script) as L. simpl in L.
-    exact (proj1 (life_prefix_counts _ _ _ _ _ L p q E)).
-  - apply C02_balanced_at_end.
-Qed.
-
-(* (b) / (c) outlives the consumer.  Only [dtor] and the eager [seq_final] emit TValDtor for the store of a let_value /
-   let_error / finally node, and they emit it AFTER the complete destructor cascade of the consumer's operation state:
-   let_value's destructor destroys the successor operation, then the stored values; let_error / finally destroy the
-   final / completion operation, then the stored error / result; the store is constructed before the first child's
-   operation is destroyed and before the consumer is started ([dtor1], start / stop / leafev). *)
-Lemma strip_letv : forall st, strip BLetV st = st /\ stored BLetV st = [].
-Proof. destruct st; simpl; auto. Qed.
-
-Theorem letv_dtor_order : forall a b v sb,
-  dtor (Bin BLetV a b) (OStore SLetV v (OCompl OFin sb)) = dtor b sb ++ [TValDtor SLetV v].
-Proof.
-  intros. simpl. destruct (strip_letv sb) as [E1 E2]. rewrite E1, E2. simpl.
-  destruct a; simpl; rewrite ?app_nil_r; try reflexivity; destruct k; reflexivity.
-Qed.
-
-Theorem seq_final_order : forall k h b sb tr o,
-  seq_final k h b sb tr o =
-  if eager_dtor k then (OFin, tr ++ dtor b sb ++ dtor_ev h, Some o) else (wrap h (OCompl OFin sb), tr, Some o).
-Proof. reflexivity. Qed.
-
-Theorem dtor1_order : forall h a sa, dtor1 h a sa = ctor_ev h ++ dtor a sa.
-Proof. reflexivity. Qed.
